@@ -274,6 +274,7 @@ SPECS["C15"] = dict(
     jobs=[
         rapid("TestC15Close", 350, 10000, sq=4, st=16),
         rapid("TestC15Pool", 250, 8000, sq=4, st=16),
+        rapid("TestC15PoolAutoTune", 600, 20000, sq=2, st=8),
     ],
 )
 
@@ -288,6 +289,7 @@ SPECS["C19"] = dict(
     jobs=[
         rapid("TestC19OOB", 300, 9000, sq=4, st=16),
         plain("TestC19NoFEC", sq=1, st=1),
+        rapid("TestC19ForeignConvOOB", 400, 12000, sq=2, st=8),
     ],
 )
 
